@@ -43,7 +43,8 @@ import (
 	"verifharness/lib"
 )
 
-// ---- time mapping: model time t (seconds, 0 = zero time.Time) ----
+// ---- time mapping: model time t (milliseconds after `base`, 0 = zero time.Time); activation
+// instants of the generated schedules are whole seconds, clock values may have any fraction ----
 
 var base = time.Date(2020, 1, 1, 0, 0, 0, 0, time.UTC)
 
@@ -51,14 +52,14 @@ func toTime(t int) time.Time {
 	if t == 0 {
 		return time.Time{}
 	}
-	return base.Add(time.Duration(t) * time.Second)
+	return base.Add(time.Duration(t) * time.Millisecond)
 }
 
 func toModel(tm time.Time) int {
 	if tm.IsZero() {
 		return 0
 	}
-	return int(tm.Sub(base) / time.Second)
+	return int(tm.Sub(base) / time.Millisecond)
 }
 
 // ---- schedules ----
@@ -88,7 +89,8 @@ func (d SchedDesc) next(t int) int {
 		}
 		return 0
 	case "d":
-		return t + d.P
+		// ConstantDelaySchedule: t.Add(Delay - t.Nanosecond()), i.e. from the start of t's second
+		return t - t%1000 + d.P
 	}
 	return 0
 }
@@ -116,8 +118,9 @@ type Op struct {
 	Sid   int    `json:"sid,omitempty"`
 	Block bool   `json:"block,omitempty"`
 	Idx   int    `json:"idx,omitempty"`  // remove: which id; release: which blocked invocation
-	Mode  string `json:"mode,omitempty"` // adv: exact before across zero
-	N     int    `json:"n,omitempty"`    // adv across: delta
+	Mode  string `json:"mode,omitempty"` // adv: exact before across zero past (= exact + frac)
+	N     int    `json:"n,omitempty"`    // adv across: delta (seconds)
+	Frac  int    `json:"frac,omitempty"` // adv: extra milliseconds (sub-second landing point)
 	Stale int    `json:"stale,omitempty"` // race: second advance by this much while the loop is held
 	Inner *Op    `json:"inner,omitempty"` // race: the request issued before the loop is released
 }
@@ -583,7 +586,7 @@ func (r *runner) startCall(op Op) *callHandle {
 			var id cron.EntryID
 			if d.K == "d" {
 				var err error
-				id, err = r.c.AddFunc(fmt.Sprintf("@every %ds", d.P), r.job(slot, op.Block))
+				id, err = r.c.AddFunc(fmt.Sprintf("@every %ds", d.P/1000), r.job(slot, op.Block))
 				if err != nil {
 					panic(err)
 				}
@@ -759,7 +762,7 @@ func (r *runner) advanceTo(t int) {
 }
 
 // target resolves an advance mode against what the harness knows about the live entries.
-func (r *runner) target(mode string, n int) int {
+func (r *runner) target(mode string, n, frac int) int {
 	r.mu.Lock()
 	defer r.mu.Unlock()
 	clk := r.now()
@@ -778,11 +781,13 @@ func (r *runner) target(mode string, n int) int {
 		}
 	}
 	if min == 0 {
-		min = clk + 1
+		min = clk + 1000
 	}
 	switch mode {
 	case "exact":
 		return min
+	case "past": // lands after the next instant by a sub-second fraction
+		return min + frac
 	case "before":
 		if min-1 > clk {
 			return min - 1
@@ -794,14 +799,14 @@ func (r *runner) target(mode string, n int) int {
 		if n < 1 {
 			n = 1
 		}
-		return clk + n
+		return clk + n*1000 + frac
 	}
 }
 
 func (r *runner) doRace(op Op) bool {
 	if !r.isRunning() || op.Inner == nil {
 		// not running: the same operations in sequence
-		r.advanceTo(r.target(op.Mode, op.N))
+		r.advanceTo(r.target(op.Mode, op.N, op.Frac))
 		if !r.settle() {
 			return false
 		}
@@ -832,10 +837,10 @@ func (r *runner) doRace(op Op) bool {
 		r.mu.Unlock()
 		return false
 	}
-	t1 := r.target(op.Mode, op.N)
+	t1 := r.target(op.Mode, op.N, op.Frac)
 	r.advanceTo(t1)
 	if op.Stale > 0 {
-		r.advanceTo(t1 + op.Stale)
+		r.advanceTo(t1 + op.Stale*1000 - op.Frac%1000)
 	}
 	h2 := r.startCall(*op.Inner)
 	// let the request goroutine block on its channel send, so that both select cases are ready
@@ -900,7 +905,7 @@ func runCase(cs Case, res *lib.Result) (lines []string, stats map[string]int, br
 			r.seqOp(op)
 		case "adv":
 			r.stats["adv:"+op.Mode]++
-			r.advanceTo(r.target(op.Mode, op.N))
+			r.advanceTo(r.target(op.Mode, op.N, op.Frac))
 			r.settle()
 		case "release":
 			r.mu.Lock()
@@ -982,12 +987,15 @@ func runCase(cs Case, res *lib.Result) (lines []string, stats map[string]int, br
 // ---- generation ----
 
 var families = map[string][]SchedDesc{
-	"equal":   {{K: "p", P: 3, O: 3}, {K: "p", P: 3, O: 3}, {K: "p", P: 4, O: 1}, {K: "p", P: 4, O: 1}},
-	"nested":  {{K: "p", P: 2, O: 2}, {K: "p", P: 4, O: 4}, {K: "p", P: 8, O: 8}, {K: "p", P: 4, O: 2}},
-	"coprime": {{K: "p", P: 3, O: 3}, {K: "p", P: 5, O: 5}, {K: "p", P: 7, O: 7}, {K: "p", P: 2, O: 1}},
-	"mixed":   {{K: "p", P: 3, O: 1}, {K: "z"}, {K: "f", P: 4, O: 4, Lim: 40}, {K: "d", P: 5}, {K: "p", P: 6, O: 6}},
+	"equal":   {{K: "p", P: 3000, O: 3000}, {K: "p", P: 3000, O: 3000}, {K: "p", P: 4000, O: 1000}, {K: "p", P: 4000, O: 1000}},
+	"nested":  {{K: "p", P: 2000, O: 2000}, {K: "p", P: 4000, O: 4000}, {K: "p", P: 8000, O: 8000}, {K: "p", P: 4000, O: 2000}},
+	"coprime": {{K: "p", P: 3000, O: 3000}, {K: "p", P: 5000, O: 5000}, {K: "p", P: 7000, O: 7000}, {K: "p", P: 2000, O: 1000}},
+	"mixed":   {{K: "p", P: 3000, O: 1000}, {K: "z"}, {K: "f", P: 4000, O: 4000, Lim: 40000}, {K: "d", P: 5000}, {K: "p", P: 6000, O: 6000}},
 }
 var familyNames = []string{"equal", "nested", "coprime", "mixed"}
+
+// sub-second landing points of clock advances (ms); activation instants are whole seconds
+var fracs = []int{0, 0, 0, 300, 500, 600, 999}
 
 func genOp(rg *lib.Rand, nScheds, nAdds int, allowRace bool) Op {
 	x := rg.Intn(100)
@@ -995,8 +1003,8 @@ func genOp(rg *lib.Rand, nScheds, nAdds int, allowRace bool) Op {
 	case x < 16:
 		return Op{K: "add", Sid: rg.Intn(nScheds), Block: rg.Intn(4) == 0}
 	case x < 52:
-		m := []string{"exact", "exact", "before", "across", "across", "zero"}[rg.Intn(6)]
-		return Op{K: "adv", Mode: m, N: rg.Range(1, 20)}
+		m := []string{"exact", "exact", "before", "across", "across", "zero", "past", "past"}[rg.Intn(8)]
+		return Op{K: "adv", Mode: m, N: rg.Range(1, 20), Frac: fracs[rg.Intn(len(fracs))]}
 	case x < 62:
 		return Op{K: "entries"}
 	case x < 70:
@@ -1034,14 +1042,14 @@ func genOp(rg *lib.Rand, nScheds, nAdds int, allowRace bool) Op {
 		if rg.Intn(3) == 0 {
 			st = rg.Range(1, 9)
 		}
-		m := []string{"exact", "exact", "across", "before"}[rg.Intn(4)]
-		return Op{K: "race", Mode: m, N: rg.Range(1, 15), Stale: st, Inner: &inner}
+		m := []string{"exact", "exact", "across", "before", "past"}[rg.Intn(5)]
+		return Op{K: "race", Mode: m, N: rg.Range(1, 15), Frac: fracs[rg.Intn(len(fracs))], Stale: st, Inner: &inner}
 	}
 }
 
 func genCase(rg *lib.Rand, i int) Case {
 	fam := familyNames[rg.Intn(len(familyNames))]
-	cs := Case{Name: fmt.Sprintf("g%d", i), Family: fam, T0: rg.Range(5, 25), Scheds: families[fam]}
+	cs := Case{Name: fmt.Sprintf("g%d", i), Family: fam, T0: rg.Range(5, 25)*1000 + fracs[rg.Intn(len(fracs))], Scheds: families[fam]}
 	n := rg.Range(6, 34)
 	nAdds := 0
 	// a prefix that makes most cases interesting: some entries, then Start (in either order)
@@ -1068,7 +1076,7 @@ func genCase(rg *lib.Rand, i int) Case {
 func enumCases(depth int) []Case {
 	alpha := []Op{
 		{K: "adv", Mode: "exact"},
-		{K: "adv", Mode: "across", N: 7},
+		{K: "adv", Mode: "across", N: 7, Frac: 600},
 		{K: "add", Sid: 1},
 		{K: "remove", Idx: 1},
 		{K: "entries"},
@@ -1082,7 +1090,7 @@ func enumCases(depth int) []Case {
 	rec = func(prefix []Op) {
 		if len(prefix) == depth {
 			ops := append([]Op{{K: "add", Sid: 0}, {K: "add", Sid: 1, Block: true}, {K: "start"}}, prefix...)
-			out = append(out, Case{Name: fmt.Sprintf("e%d", len(out)), Family: "coprime", T0: 10, Scheds: families["coprime"], Ops: append([]Op(nil), ops...)})
+			out = append(out, Case{Name: fmt.Sprintf("e%d", len(out)), Family: "coprime", T0: 10000, Scheds: families["coprime"], Ops: append([]Op(nil), ops...)})
 			return
 		}
 		for _, a := range alpha {
@@ -1178,6 +1186,81 @@ func runStress(res *lib.Result, iters int) {
 	}
 }
 
+// ---- back-to-back Stop/Start (no settling in between) ----
+//
+//	start-after-stop            after the LAST Stop returned and its context completed, a job started
+//	scheduler-alive-after-stop  … a scheduler goroutine still holds an armed timer
+//	api-hang                    Stop/Start did not return
+func runRapidRestart(res *lib.Result, rg *lib.Rand, n int) {
+	waitParked := func(clk *VClock, prev *vtimer) *vtimer {
+		for i := 0; i < 400000; i++ {
+			if t := clk.Last(); t != nil && t != prev && !t.Fired() {
+				return t
+			}
+			time.Sleep(5 * time.Microsecond)
+		}
+		return clk.Last()
+	}
+	for it := 0; it < n; it++ {
+		clk := NewVClock(toTime(10000))
+		var starts atomic.Int64
+		c := cron.New(cron.WithClock(clk), cron.WithLocation(time.UTC), cron.WithLogger(cron.DiscardLogger))
+		c.Schedule(goSched{SchedDesc{K: "p", P: 1000, O: 1000}}, cron.FuncJob(func() { starts.Add(1) }))
+		k := rg.Range(1, 4)
+		settleBeforeLast := rg.Intn(3) == 0
+		script := fmt.Sprintf("Schedule(every second); Start; %d x (Stop; Start) back to back; settle=%v; Stop; wait ctx; advance 5 s", k, settleBeforeLast)
+		cs := map[string]any{"family": "rapid-restart", "script": script}
+		done := make(chan context.Context, 1)
+		go func() {
+			c.Start()
+			waitParked(clk, nil)
+			for j := 0; j < k; j++ {
+				c.Stop()
+				c.Start()
+			}
+			if settleBeforeLast {
+				time.Sleep(200 * time.Microsecond)
+			}
+			done <- c.Stop()
+		}()
+		var ctx context.Context
+		select {
+		case ctx = <-done:
+		case <-time.After(waitLimit):
+			res.Violate("api-hang", "rapid-restart: Stop/Start sequence did not return: "+script, cs)
+			continue
+		}
+		select {
+		case <-ctx.Done():
+		case <-time.After(waitLimit):
+			res.Violate("stop-ctx-never-done", "rapid-restart: the last Stop's context did not complete: "+script, cs)
+		}
+		// the exiting scheduler goroutines stop their timers
+		alive := true
+		for w := 0; w < 4000; w++ {
+			if clk.ArmedCount() == 0 {
+				alive = false
+				break
+			}
+			time.Sleep(50 * time.Microsecond)
+		}
+		if alive {
+			res.Violate("scheduler-alive-after-stop", "after the last Stop returned and its context completed a scheduler goroutine still has an armed timer: "+script, cs)
+		}
+		s0 := starts.Load()
+		for j := 1; j <= 5; j++ {
+			clk.Advance(toTime(10000 + j*1000))
+			time.Sleep(100 * time.Microsecond)
+		}
+		time.Sleep(500 * time.Microsecond)
+		if s1 := starts.Load(); s1 > s0 {
+			res.Violate("start-after-stop", fmt.Sprintf("%d job start(s) after the last Stop returned and its context completed: %s", s1-s0, script), cs)
+		}
+		res.Hit(fmt.Sprintf("rapid-restart:stop-start-pairs:%d", k))
+		res.Count(fmt.Sprintf("rapid-restart:%d:%v", k, settleBeforeLast), true)
+	}
+}
+
 // ---- main ----
 
 func main() {
@@ -1204,6 +1287,31 @@ func main() {
 		if err != nil {
 			fmt.Fprintln(os.Stderr, "replay:", err)
 			os.Exit(2)
+		}
+		var gp struct {
+			Case map[string]any `json:"case"`
+		}
+		if json.Unmarshal(b, &gp) == nil {
+			switch fam, _ := gp.Case["family"].(string); fam {
+			case "rapid-restart":
+				runRapidRestart(res, lib.NewRand(fl.Seed), 400)
+				res.Write(fl.Out)
+				return
+			case "restart-stress":
+				runStress(res, 300000)
+				res.Write(fl.Out)
+				return
+			case "chain":
+				if k, _ := gp.Case["kind"].(string); strings.HasPrefix(k, "via-cron") {
+					runViaCronChild(res, 300, fl.Seed)
+					res.Write(fl.Out)
+					return
+				} else if k == "then" {
+					checkThenOrder(res, lib.NewRand(fl.Seed))
+					res.Write(fl.Out)
+					return
+				}
+			}
 		}
 		var cp struct {
 			Case ChainCase `json:"case"`
@@ -1338,6 +1446,7 @@ func main() {
 			nChain *= 4
 		}
 		runChainFamily(res, lib.NewRand(fl.Seed^0x5eed), nChain, fl.Drv)
+		runRapidRestart(res, lib.NewRand(fl.Seed^0xbacc), nChain/2)
 	}
 	if fl.Replay == "" {
 		it := 20000
